@@ -176,6 +176,8 @@ def gen_sequence_c04(rng):
             lv.append(0)
         else:
             lv = [0] + lv
+    if rng.random() < 0.12:                # the recording starts at zero load (one or several samples)
+        lv = [0] * rng.choice([1, 1, 2, 3]) + lv
     if len(set(lv)) < 2:
         lv.append(lv[-1] + rng.choice([-1, 1]) * rng.randint(1, amp))
     # injected non-reversal samples (dup / mid), anywhere incl. the junction
@@ -267,13 +269,18 @@ def as_container(loads, kind):
     return loads
 
 
-def run_two_pass(loads, law, second=True):
-    """loads: 1-D float array (single point) or Series (load_step, node_id)."""
+def run_two_pass(loads, law, second=True, peek="none"):
+    """loads: 1-D float array (single point) or Series (load_step, node_id).
+    peek: the user looks at recorder.collective before the first pass and / or between the passes."""
     rec = FKMNonlinearRecorder()
     try:
         det = FKMNonlinearDetector(recorder=rec, notch_approximation_law=law)
+        if peek in ("before", "both"):
+            rec.collective
         det.process_hcm_first(loads)
         first_rows = None
+        if peek in ("between", "both"):
+            rec.collective
         if second:
             det.process_hcm_second(loads)
     except Exception as e:    # noqa
@@ -318,7 +325,8 @@ def generate(prop, rng, tier):
         tr = {"world": NAME, "levels": lv, "step": step, "law": rng.choice(["EN", "EN", "EN", "SB"]),
               "mat": rng.randrange(len(MATERIALS)), "bins": rng.choice([10, 20, 50]),
               "twin": None,
-              "container": rng.choice(["f64", "f64", "f64", "list", "i64", "i32", "i16", "series", "f32int"])}
+              "container": rng.choice(["f64", "f64", "f64", "list", "i64", "i32", "i16", "series", "f32int"]),
+              "peek": rng.choice(["none", "none", "before", "between", "both"])}
         if rng.random() < 0.3:
             # J3 twin: interior-only refinement, compared per pass with the base
             tr["twin"] = refine(rng, lv, junction=False, density=rng.choice([0.3, 0.7]))
@@ -368,7 +376,8 @@ def generate_c05(rng, tier):
     big = max(abs(x) for x in lv) * step
     tr = {"world": NAME, "levels": lv, "step": step, "law": rng.choice(["EN", "EN", "SB"]),
           "mat": rng.randrange(len(MATERIALS)), "bins": rng.choice([20, 50, 100, 200]),
-          "mode": rng.choice(["K1", "K1", "K2", "K2", "K3"])}
+          "mode": rng.choice(["K1", "K1", "K2", "K2", "K3"]),
+          "peek": rng.choice(["none", "none", "between", "both"])}
     edge = rng.random() < 0.4
     tr["max_factor"] = rng.choice([1.0, 1.0, 1.25, 2.0]) if edge else rng.choice([1.0137, 1.0731, 1.3391, 1.9173])
     if rng.random() < 0.22:
@@ -467,7 +476,7 @@ def exec_c04(trace, out, log):
         idx = pd.MultiIndex.from_product([range(len(lv)), [i for i, _ in nodes]], names=["load_step", "node_id"])
         ser = pd.Series([x * step * r for x in lv for _, r in nodes], index=idx, dtype=np.float64)
         law = get_law(trace["law"], int(trace["mat"]), [(i, big * 1.0731 * r) for i, r in nodes], int(trace["bins"]))
-        det, rec, _ = run_two_pass(ser, law)
+        det, rec, _ = run_two_pass(ser, law, peek=trace.get("peek", "none"))
         all_rows = collective_rows(rec)
         out.steps += 2
         out.count("probe:batched_history")
@@ -487,7 +496,9 @@ def exec_c04(trace, out, log):
                 return
     else:
         law = get_law(trace["law"], int(trace["mat"]), big * 1.0731, int(trace["bins"]))
-        det, rec, _ = run_two_pass(as_container(loads, trace.get("container", "f64")), law)
+        det, rec, _ = run_two_pass(as_container(loads, trace.get("container", "f64")), law, peek=trace.get("peek", "none"))
+        if trace.get("peek", "none") != "none":
+            out.count("history:collective_read_early")
         rows = collective_rows(rec)
         out.steps += 2
         out.count("container:" + trace.get("container", "f64"))
@@ -668,7 +679,7 @@ def exec_c05(trace, out, log):
     ctx = {"levels": lv, "step": step, "law": kind, "mat": mat, "bins": bins, "max_factor": mf}
     if mode in ("K1", "K3"):
         law = get_law(kind, mat, big * mf, bins)
-        det, rec, first_rows = run_two_pass(loads, law)
+        det, rec, first_rows = run_two_pass(loads, law, peek=trace.get("peek", "none"))
         rows = collective_rows(rec)
         out.steps += 2
         ref = reference_run(lv, step, ScalarLaw(law))
@@ -856,6 +867,21 @@ def exec_c05_chunked(trace, out, log):
                 ref.feed(s_[-1], len(bounds) - 1)
             if not compare_rows(rows_s, ref.rows, "K1-reference", out, dict(ctx, chunked=True)):
                 return
+            # visited strain values: all, those of the first process() call, those of the later calls
+            try:
+                sv = [float(x) for x in dets.strain_values]
+                sv1 = [float(x) for x in dets.strain_values_first_run]
+                sv2 = [float(x) for x in dets.strain_values_second_run]
+            except Exception as e:   # noqa
+                raise RealCodeError("strain_values", e)
+            w = [e for _, e in ref.strains]
+            w1 = [e for r, e in ref.strains if r == 1]
+            w2 = [e for r, e in ref.strains if r != 1]
+            sc = max([abs(x) for x in w] + [1e-30])
+            for name, g, ww in (("strain_values", sv, w), ("strain_values_first_run", sv1, w1), ("strain_values_second_run", sv2, w2)):
+                if len(g) != len(ww) or any(abs(a - b) > TOL * sc for a, b in zip(g, ww)):
+                    out.violate("K1-reference", name, dict(ctx, chunked=True, got=g[:40], want=ww[:40]))
+                    return
     if rows_b:
         out.sigs.append("c05|K4|%s|n%d|chunks%d|rows%d|%s" % (kind, m, min(len(chunks_b), 6), min(len(rows_b) // m, 10), "flush" if flush else "noflush"))
 
@@ -899,7 +925,7 @@ def shrink(prop, trace):
             t = copy.deepcopy(trace)
             t["nodes"] = cand
             yield t
-    for key, simple in (("law", "EN"), ("mat", 0), ("step", 100.0), ("bins", 20)):
+    for key, simple in (("law", "EN"), ("mat", 0), ("step", 100.0), ("bins", 20), ("peek", "none"), ("container", "f64")):
         if trace.get(key) != simple:
             t = copy.deepcopy(trace)
             t[key] = simple
@@ -1002,7 +1028,7 @@ def describe(prop):
                 "assumptions": ["loads are integer multiples of a step, far from the code's 1e-12 guards", "models/periodic_rainflow.py is trusted",
                                 "multisets of load pairs are compared, not row order"],
                 "required_probes": ["junction:norev", "junction:between", "junction:tplat", "junction:lplat", "junction:maxend", "junction:nozturn",
-                                    "probe:memory3_rows", "fault:interior_refinement", "probe:batched_history"]}
+                                    "probe:memory3_rows", "fault:interior_refinement", "probe:batched_history", "history:collective_read_early"]}
     return {"level": "exploration", "real": real,
             "stub": ["load-sequence source (benign junctions, adversarial nesting)", "pass driver", "models/hcm_ref.py: scalar HCM (primary/secondary branch, Memory 1-3) calling the same law object through its scalar interface",
                      "lock-step solo replicas for the batch comparison"],
